@@ -101,6 +101,32 @@ def extract_handler(fn):
             for c in _calls(st, "run_step"):
                 info["steps"].append(L(c))
     scan(tree.body, "normal")
+    # statements executed after the lock was taken and before the try block whose finally/except releases it: an
+    # exception raised there leaves the lock set
+    info["unprotected"] = []
+
+    def siblings(stmts):
+        for idx, st in enumerate(stmts):
+            if isinstance(st, ast.If) and info["test"] is not None and L(st) == info["test"]:
+                for nxt in stmts[idx + 1:]:
+                    if isinstance(nxt, ast.Try) and (any(_calls(x, "unlock") for x in nxt.finalbody) or any(_calls(x, "unlock") for h_ in nxt.handlers for x in h_.body)):
+                        break
+                    if isinstance(nxt, (ast.FunctionDef, ast.Return)):
+                        continue                      # a nested function's body runs later; building the response is not input-dependent
+                    names = set(x.id for x in ast.walk(nxt) if isinstance(x, ast.Name))
+                    reads_input = bool(names & {"content", "request"})
+                    if reads_input and (any(isinstance(x, ast.Call) for x in ast.walk(nxt)) or any(isinstance(x, ast.Subscript) for x in ast.walk(nxt))):
+                        info["unprotected"].append(L(nxt))    # decodes request input: can raise on a malformed body
+                return True
+            for sub in (getattr(st, "body", []), getattr(st, "orelse", []), getattr(st, "finalbody", [])):
+                if isinstance(sub, list) and siblings(sub):
+                    return True
+            for h_ in getattr(st, "handlers", []):
+                if siblings(h_.body):
+                    return True
+        return False
+    if info["atomic_test"]:
+        siblings(tree.body)
     info["unlock_when_refused"] = False
     if info["test"] is not None:
         for tr in [n for n in ast.walk(tree) if isinstance(n, ast.Try)]:
@@ -264,7 +290,7 @@ def bmc(hs, kinds, nsteps, want_violation=True, faults=True):
         if not faults:
             s.add(fault[r] == 0)
         else:
-            allowed = [0, 1] + ([2] if kinds[r] == "stream" else [])
+            allowed = [0, 1] + ([2] if kinds[r] == "stream" else []) + ([3] if hs[kinds[r]].get("unprotected") else [])
             s.add(z3.Or(*[fault[r] == a for a in allowed]))
         s.add(fstep[r] >= 0, fstep[r] < nsteps[r])
 
@@ -308,8 +334,8 @@ def bmc(hs, kinds, nsteps, want_violation=True, faults=True):
             before_fault = z3.Or(fault[r] == 0, j < fstep[r]) if True else True
             at_fault = z3.And(fault[r] != 0, j == fstep[r])
             # reads happen for steps up to and including the faulty one (exception: after the read; client gone: after the step)
-            ract = z3.And(proceed[r], z3.Or(before_fault, at_fault))
-            wact = z3.And(proceed[r], z3.Or(before_fault, z3.And(at_fault, fault[r] == 2)))
+            ract = z3.And(proceed[r], fault[r] != 3, z3.Or(before_fault, at_fault))      # fault 3: exception before the first step
+            wact = z3.And(proceed[r], fault[r] != 3, z3.Or(before_fault, z3.And(at_fault, fault[r] == 2)))
             s.add(act[(r, "R%d" % j)] == ract)
             s.add(act[(r, "W%d" % j)] == wact)
             rv[(r, j)] = z3.Int("rv_%d_%d" % (r, j))
@@ -317,7 +343,7 @@ def bmc(hs, kinds, nsteps, want_violation=True, faults=True):
             s.add(wv[(r, j)] == rv[(r, j)] + 1)
         if (r, "U") in act:
             normal_end = z3.And(proceed[r], fault[r] == 0)
-            error_end = z3.And(proceed[r], fault[r] != 0)
+            error_end = z3.And(proceed[r], fault[r] != 0, fault[r] != 3)          # fault 3 is raised outside the try that unlocks
             u = z3.BoolVal(False)
             if h["unlock_normal"]:
                 u = z3.Or(u, normal_end)
@@ -482,7 +508,8 @@ def real_run(sc, hs, rs):
                 resp = cl.post("/%s/run-step" % inst)
                 return resp.status_code, resp.data.decode()
             if k == "steps":
-                resp = cl.post("/%s/run-steps" % inst, data=json.dumps({"numberSteps": nsteps[r], "settings": {}}), content_type="application/json")
+                n_ = nsteps[r] if fault_at[names[r]][0] != 3 else "three"     # fault 3: an input the statements before the try choke on
+                resp = cl.post("/%s/run-steps" % inst, data=json.dumps({"numberSteps": n_, "settings": {}}), content_type="application/json")
                 return resp.status_code, resp.data.decode()
             resp = cl.post("/%s/stream-steps" % inst, buffered=False)
             if resp.status_code != 200:
@@ -652,7 +679,7 @@ def run(tier):
     r2, _ = bmc(h2, ("steps", "steps"), (2, 2), want_violation=True, faults=False)
     rep.canary("run-steps-without-lock-test", r2 == "sat")
     rep.assume("2 and 3 concurrent requests on one instance; run-steps with numberSteps = 2, stream-steps with 2 steps left; source-line granularity",
-               "fault per request: none, exception raised inside run_step after the clock read, client gone after a streamed step",
+               "fault per request: none, exception raised inside run_step after the clock read, client gone after a streamed step, exception in a statement between taking the lock and the try block that releases it (only where the handler has such statements)",
                "lock/unlock/is_locked are plain flag operations (checked on the source); run_step reads the clock at its first and writes it at its last clock statement",
                "frame condition: the only other writer of the flag in the package, the state save (InstanceManager._get_instance_state), is run concretely on a locked stub session; if it changes the live flag it becomes an operation of the model (after every accepted request's unlock, and as a GET /save-state request)")
     rep.coverage.update({"states": queries, "transitions": max(1, unsat), "traces_validated_against_impl": len(rep.cands) + validated, "samples": samples,
